@@ -39,7 +39,9 @@ P = {
  "C06": ("proof", "4.C06", "Coq proof (Ok-totality of the structure-faithful models of all 23 functions as corollaries of the refinement theorems; range theorems for Spec) + panic/hang/range observation on ill-formed corpus + guard-page sweep of the API",
          "C06_total_two_strings / C06_total_string_rune_byte: for every byte string (well-formed or not), every rune/byte argument, both package shapes and every configuration, the model of each exported function returns Ok: "
          "no bounds check of a slice expression fails (Panic is a visible result of the models) and no loop runs past its fuel. Returned offsets lie in [-1, len s] and sub-slices inside s (range theorems for Spec, which the models equal). "
-         "For the code itself: absence of panics/hangs is observed (recover, watchdog) on a dense ill-formed corpus incl. exhaustive small alphabets, and reads outside the arguments by calling every exported function with its arguments flush against PROT_NONE pages on both sides."),
+         "For the code itself: absence of panics/hangs is observed (recover, watchdog) on a dense ill-formed corpus incl. exhaustive small alphabets, and reads outside the arguments by calling every exported function with its arguments flush against PROT_NONE pages on both sides. "
+         "Returning normally also means not dying of an illegal instruction: the one call with a CPU-dependent contract (the runtime's native Index, 'requires len(b) <= MaxLen', AVX2 instructions beyond it) is a crash of the model outside the contract, "
+         "C06_index_total_at_the_source_constants proves it is never made outside it at the bound read from the source and the least MaxLen read from the toolchain, and the instruction-set probe (gdb breakpoints on every AVX/AVX2 / POPCNT instruction of the kernels, run under cpu.avx2=off / cpu.popcnt=off) shows the real code executes none."),
  "C07": ("proof", "4.C07", "Coq proof (exported sets equal, _lower tables equal, Compare/EqualFold shape parity; supporting: shape parity of every function whose source differs) + direct parity comparison of both packages",
          "Both packages are compared with each other and with the same extracted Spec on every generated case of all 23 functions. C07's own obligations (exports, _lower, Compare/EqualFold) are kept independent of the tables' orbit facts; "
          "the supporting theorem C07x_model_parity (Properties/C07x.v, listed in the evidence) proves that the strcase-shaped and the bytcase-shaped model of every function whose source differs between the packages "
@@ -53,9 +55,10 @@ P = {
          "Proved (Properties/C13.v): IndexNonASCII/IndexByteNonASCII, IndexByte/IndexByteString (wrappers' letter test and both bodies) and Count/CountString (POPCNT hand-over, letter test, both counting bodies) of the go1.22+ file set return index_non_ascii / k_index_byte / k_count, the scalar definitions, started from arbitrary register contents; Done also means every load stayed inside the 4 KiB pages holding a byte of the argument, the only store was the result slot, no address or counter wrapped, no jump read an undefined flag. The portable, no-POPCNT and standard-library based Go bodies are proved equal to the same definitions. "
          "Modelled, not verified: the x86 instruction semantics of X86.v (validated on every run: the extracted interpreter is run on the translated programs at 6 placements x 3 surroundings x 4 AVX2/POPCNT combinations x 2 entry points against what the real kernels returned), the translator tools/asm2prog.py, arm64 assembly. The pre-1.22 file set is covered by a general theorem (erasing PCALIGN no-ops preserves every run's result, X86Erase.v) plus the computed check that the pre-1.22 programs are the go1.22 programs without their no-ops; what GOAMD64=v3 assembles is covered under C14. Search for a failing input when a proof breaks: the guard-page sweep (lengths 0..200 + page-crossing lengths quick / 0..4352 thorough, all alignments, flush against PROT_NONE pages on both sides, needle-filled surroundings)."),
  "C14": ("proof", "4.C14", "Coq proof that every kernel back end computes the same function (the assembly with its AVX2 path, with its SSE path, the GOAMD64=v3 preprocessing of the assembly, the no-POPCNT Go fallback, the portable and the standard-library based Go bodies all return the scalar definitions) and that the search models above the kernels do not depend on the back-end parameters; + the correspondence corpus executed under 6 configurations and compared case by case",
-         "Proved (Properties/C14.v): C14_kernel_backends_agree — for IndexNonASCII, IndexByteString and CountString the run of the default assembly with AVX2, without AVX2, of the v3 preprocessing (proofs derived by tools/mkv3.py from the default ones and re-checked) and the Go bodies yield one value, at any placement; C14_search_models_configuration_free — the models of Index, IndexRune, IndexByte, IndexAny, LastIndexAny return the same result under every NativeIndex / cut-over / threshold setting (each refines the same Spec). "
+         "Proved (Properties/C14.v): C14_kernel_backends_agree — for IndexNonASCII, IndexByteString and CountString the run of the default assembly with AVX2, without AVX2, of the v3 preprocessing (proofs derived by tools/mkv3.py from the default ones and re-checked) and the Go bodies yield one value, at any placement; C14_search_models_configuration_free — the models of Index, IndexRune, IndexByte, IndexAny, LastIndexAny return the same result under every NativeIndex / cut-over / threshold setting (each refines the same Spec); C14_native_needles_within_runtime_contract / C14_index_at_the_source_constants — the largest needle Index hands to the runtime's native Index (read from the source on every run) does not exceed the least internal/bytealg.MaxLen of the toolchain (read from GOROOT on every run: 31, amd64 without AVX2), so the model's contract-checked native call never crashes and Index at the source's constants is the Spec on every supported CPU. "
+         "Instruction-set probe: the harness replays 172 calls under gdb with a breakpoint on each of the 131 VEX-encoded and 21 POPCNT instructions of the kernels (library and runtime), under cpu.avx2=off and cpu.popcnt=off; an instruction reached while its feature flag is false is a violation (SIGILL on a processor without the feature). "
          "PARTIAL: the tie of those models and of the machine model to the code is the correspondence, run under every configuration: runtime AVX2, cpu.avx2=off, cpu.popcnt=off, both off, GOAMD64=v3, GOARCH=386 (portable file set, executed natively), plus the standard-library based kernels compiled on the host. "
-         "Real non-x86 hardware (arm64 assembly) and a CPU without AVX2 (the linknamed runtime IndexString still sees AVX2) are out of reach."),
+         "Real non-x86 hardware (arm64 assembly) is out of reach; a CPU without AVX2 is approximated by cpu.avx2=off plus the instruction-set probe."),
  "C15": ("proof", "4.C15", "Coq proof (all Spec theorems are over utf8.DecodeRune segmentation, no well-formedness hypothesis) + ill-formed corpus", "Every Spec characterisation holds for arbitrary bytes; the decoder model is validated against unicode/utf8; all 23 functions run on a dense ill-formed corpus and exhaustive small alphabets."),
  "C16": ("proof", "4.C16", "Coq proof (key invariance under re-casing) + relation evaluated on the implementation", "All results are functions of the folded key; offsets are the same code-point index. The relation is also evaluated directly on both packages with width-changing orbit members."),
  "C17": ("proof", "4.C17", "Coq proof of each relation for Spec + relations evaluated on the implementation", "Every listed relation is proved for Spec on all byte strings, including IndexRune(s,r) = Index(s,string(r)) = IndexAny(s,string(r)) for valid r and IndexByte(s,c) = Index(s,string(c)) for c < 0x80; through the refinements of Instances.v they hold for the structure-faithful models of both packages; each relation is also evaluated directly on the implementation."),
